@@ -462,7 +462,7 @@ class NativeCli:
                 env['TZ'] = tz
             stdin = job.get('stdin')
             r = subprocess.run(argv, cwd=d, env=env, input=bytes(stdin) if stdin is not None else None,
-                               stdin=None if stdin is not None else subprocess.DEVNULL, stdout=subprocess.PIPE, stderr=subprocess.PIPE, timeout=20)
+                               stdin=None if stdin is not None else subprocess.DEVNULL, stdout=subprocess.PIPE, stderr=subprocess.PIPE, timeout=60)
             files = {}
             for p in os.listdir(d):
                 files[p] = list(open(os.path.join(d, p), 'rb').read())
